@@ -1467,7 +1467,9 @@ class CParser:
             type=decl or c_ast.TypeDecl(None, None, None, None),
             coord=spec_coord,
         )
-        return self._fix_decl_name_type(decl, spec["type"])
+        return fix_atomic_specifiers(
+            cast(Any, self._fix_decl_name_type(decl, spec["type"]))
+        )
 
     # BNF: identifier_list_opt : identifier_list | empty
     def _parse_identifier_list_opt(self) -> Optional[c_ast.Node]:
@@ -1504,7 +1506,9 @@ class CParser:
             type=decl or c_ast.TypeDecl(None, None, None, None),
             coord=coord,
         )
-        return cast(c_ast.Typename, self._fix_decl_name_type(typename, spec["type"]))
+        fixed = self._fix_decl_name_type(typename, spec["type"])
+        # _Atomic(T) means the _Atomic-qualified T in a type name as well.
+        return cast(c_ast.Typename, fix_atomic_specifiers(cast(Any, fixed)))
 
     # BNF: abstract_declarator_opt : pointer? direct_abstract_declarator?
     def _parse_abstract_declarator_opt(self) -> Optional[c_ast.Node]:
